@@ -425,6 +425,14 @@ def rhs_writers(ctx, rule):
 WS_FILTERS = {"stmwrap"}
 
 
+def _subterms(e):
+    yield e
+    if isinstance(e, tuple):
+        for x in e:
+            if isinstance(x, tuple):
+                yield from _subterms(x)
+
+
 def _r8(ctx):
     n = 0
     for label, rel, cfg, fname in CONFIGS:
@@ -450,9 +458,25 @@ def _r8(ctx):
             ctx.bad("R8", key, (rel, it[5]), f"the loop iterates {J.show(it[2])}, not ode.fex itself")
             continue
         var = it[1]
-        outs = [b for b in it[3] if b[0] == "out"]
-        others = [b for b in it[3] if b[0] not in ("out", "text")]
-        texts = "".join(b[1] for b in it[3] if b[0] == "text").strip()
+        # `{% set v = eq | filter %}` then `{{ v | .. }}`, and one-expression macros used as values, are the same chain of filters
+        sets, body, opaque = {}, [], set()
+        for b in it[3]:
+            if b[0] == "set" and b[1][0] == "name":
+                sets[b[1][1]] = J.subst(J.inline_macros(ctx.tree, b[-1], b[2]), sets)
+                opaque.discard(b[1][1])
+            elif b[0] == "out":
+                body.append(("out", J.subst(J.inline_macros(ctx.tree, b[-1], b[1]), sets)) + tuple(b[2:]))
+            elif b[0] in ("set", "setblock"):
+                # a binding the analysis does not follow (tuple / namespace target, captured block): it prints nothing itself
+                opaque |= {x[1] for x in ([b[1]] + list(b[1][1] if b[1][0] in ("tuple", "list") else ())) if x[0] == "name"}
+            else:
+                body.append(b)
+        outs = [b for b in body if b[0] == "out"]
+        others = [b for b in body if b[0] not in ("out", "text")]
+        if len(outs) == 1 and not others and any(isinstance(x, tuple) and x[:1] == ("name",) and x[1] in opaque for x in _subterms(outs[0][1])):
+            ctx.unrec("R8", key, (rel, it[5]), f"the pasted value {J.show(outs[0][1])} is bound by a `set` form the analysis does not follow")
+            continue
+        texts = "".join(b[1] for b in body if b[0] == "text").strip()
         if len(outs) != 1 or others or texts:
             ctx.bad("R8", key, (rel, it[5]), "loop body must output the equation and nothing else",
                     found=f"{len(outs)} outputs, {len(others)} control nodes, text {texts[:40]!r}")
@@ -496,11 +520,38 @@ def _r8(ctx):
     pkg = package(ctx.tree)
     fn = pkg.func("naunet/utilities.py", "_stmwrap")
     ctx.saw("naunet/utilities.py", "_stmwrap")
-    calls = [c for c in ast.walk(fn) if isinstance(c, ast.Call) and ast.unparse(c.func) in ("wrap", "fill", "textwrap.wrap", "textwrap.fill")]
-    ok = bool(calls) and all(any(k.arg == "break_long_words" and isinstance(k.value, ast.Constant) and k.value.value is False for k in c.keywords)
-                             and not any(k.arg == "break_on_hyphens" and isinstance(k.value, ast.Constant) and k.value.value is True for k in c.keywords)
-                             for c in calls)
-    ctx.check(ok, "R8", "_stmwrap:break_long_words=False", ("naunet/utilities.py", fn.lineno),
+    # every way of asking textwrap to split the text (wrap / fill / an explicit TextWrapper) must forbid breaking inside a token;
+    # the option is recognised wherever it is given: keyword of the call or attribute assignment on the wrapper object
+    WRAPPERS = ("wrap", "fill", "TextWrapper", "textwrap.wrap", "textwrap.fill", "textwrap.TextWrapper")
+    calls = [c for c in ast.walk(fn) if isinstance(c, ast.Call) and ast.unparse(c.func) in WRAPPERS]
+
+    def const_kw(c, name):
+        """value of a constant keyword, `...` when given but not constant, None when absent"""
+        for k in c.keywords:
+            if k.arg == name:
+                return k.value.value if isinstance(k.value, ast.Constant) else ...
+            if k.arg is None:
+                return ...
+        return None
+    attr_sets = [(t.attr, st.value) for st in ast.walk(fn) if isinstance(st, ast.Assign) for t in st.targets
+                 if isinstance(t, ast.Attribute) and t.attr in ("break_long_words", "break_on_hyphens")]
+    if not calls:
+        ctx.unrec("R8", "_stmwrap:break_long_words=False", ("naunet/utilities.py", fn.lineno),
+                  "no textwrap.wrap / fill / TextWrapper call found in _stmwrap: how statements are wrapped is not understood")
+        return
+    blw = [const_kw(c, "break_long_words") for c in calls]
+    boh = [const_kw(c, "break_on_hyphens") for c in calls]
+    later = {a: [v.value if isinstance(v, ast.Constant) else ... for a2, v in attr_sets if a2 == a] for a in ("break_long_words", "break_on_hyphens")}
+    if any(v is ... for v in blw + boh + later["break_long_words"] + later["break_on_hyphens"]):
+        ctx.unrec("R8", "_stmwrap:break_long_words=False", ("naunet/utilities.py", fn.lineno),
+                  "the word-breaking options of the wrapper are not constants")
+        return
+    # the option holds when every call gives False (or the wrapper object is set to False afterwards and never to anything else)
+    ok_blw = (all(v is False for v in blw) and all(v is False for v in later["break_long_words"])) or \
+        (bool(later["break_long_words"]) and all(v is False for v in later["break_long_words"]) and all(v in (False, None) for v in blw)
+         and all(ast.unparse(c.func).endswith("TextWrapper") for c in calls))
+    ok_boh = not any(v is True for v in boh + later["break_on_hyphens"])
+    ctx.check(ok_blw and ok_boh, "R8", "_stmwrap:break_long_words=False", ("naunet/utilities.py", fn.lineno),
               "line wrapping breaks at whitespace only (break_long_words=False)")
 
 
@@ -522,6 +573,8 @@ MUTANTS = [
     {"name": "fex-slice", "file": TEMPLATES["cvode"], "old": "    {% for eq in ode.fex -%}\n        {{ eq | stmwrap(80, 8) }}", "new": "    {% for eq in ode.fex[1:] -%}\n        {{ eq | stmwrap(80, 8) }}", "rules": ["R8"]},
     {"name": "kernel-replace-swapped", "file": TEMPLATES["cvode"], "old": 'replace("y[IDX", "y_cur[IDX") | stmwrap(80, 12)', "new": 'replace("y_cur[IDX", "y[IDX") | stmwrap(80, 12)', "rules": ["R8"]},
     {"name": "stmwrap-breaks-words", "file": "naunet/utilities.py", "old": "break_long_words=False", "new": "break_long_words=True", "rules": ["R8"]},
+    {"name": "textwrapper-breaks-words", "file": "naunet/utilities.py", "old": "wrappedlist = wrap(text, width - indent, break_long_words=False)", "new": "import textwrap\n    wrappedlist = textwrap.TextWrapper(width=width - indent).wrap(text)", "rules": ["R8"]},
+    {"name": "kernel-set-drops-rebase", "file": TEMPLATES["cvode"], "old": '            {{ eq | replace("ydot[IDX", "ydot[yistart + IDX") | replace("y[IDX", "y_cur[IDX") | stmwrap(80, 12) }}', "new": '            {% set dev = eq | replace("ydot[IDX", "ydot[yistart + IDX") -%}\n            {{ dev | stmwrap(80, 12) }}', "rules": ["R8"]},
     {"name": "lhs-sorted", "file": T, "old": 'lhs = [f"ydot[IDX_{x.alias}]" for x in species]', "new": 'lhs = [f"ydot[IDX_{x.alias}]" for x in sorted(species)]', "rules": ["R4"]},
     {"name": "create-species-no-filter", "file": "naunet/reactions/reaction.py", "old": "[self._create_species(r) for r in reactants if self._create_species(r)]", "new": "[self._create_species(r) for r in reactants]", "rules": ["R6"]},
     {"name": "tgas-macro", "file": "naunet/templates/base/cpp/include/naunet_macros.h.j2", "old": "#define IDX_TGAS NSPECIES", "new": "#define IDX_TGAS NEQUATIONS", "rules": ["R4"]},
@@ -536,5 +589,10 @@ BENIGN = [
     {"name": "recompute-join", "file": T, "old": 'rhs[specidx] += f" + {rate_sym}[{rl}]*{rsym_mul}"', "new": 'rhs[specidx] += f" + {rate_sym}[{rl}]*{\'*\'.join(rsym)}"'},
     {"name": "concat-instead-of-fstring", "file": T, "old": 'rhs[specidx] += f" - {rate_sym}[{rl}]*{rsym_mul}"', "new": 'rhs[specidx] += " - " + f"{rate_sym}[{rl}]" + "*" + rsym_mul'},
     {"name": "bool-has-thermal", "file": T, "old": "has_thermal = True if netinfo.heating or netinfo.cooling else False", "new": "has_thermal = bool(netinfo.heating or netinfo.cooling)"},
+    {"name": "textwrapper-object", "file": "naunet/utilities.py", "old": "wrappedlist = wrap(text, width - indent, break_long_words=False)", "new": "import textwrap\n    wrappedlist = textwrap.TextWrapper(width=width - indent, break_long_words=False).wrap(text)"},
+    {"name": "kernel-filters-via-set", "file": TEMPLATES["cvode"], "old": '            {{ eq | replace("ydot[IDX", "ydot[yistart + IDX") | replace("y[IDX", "y_cur[IDX") | stmwrap(80, 12) }}', "new": '            {% set dev = eq | replace("ydot[IDX", "ydot[yistart + IDX") | replace("y[IDX", "y_cur[IDX") -%}\n            {{ dev | stmwrap(80, 12) }}'},
+    {"name": "kernel-filters-via-macro", "edits": [
+        {"file": TEMPLATES["cvode"], "old": "#include <math.h>\n", "new": '{% macro rebased(t) %}{{ t | replace("ydot[IDX", "ydot[yistart + IDX") | replace("y[IDX", "y_cur[IDX") }}{% endmacro %}\n#include <math.h>\n', "count": 1},
+        {"file": TEMPLATES["cvode"], "old": '            {{ eq | replace("ydot[IDX", "ydot[yistart + IDX") | replace("y[IDX", "y_cur[IDX") | stmwrap(80, 12) }}', "new": '            {{ rebased(eq) | stmwrap(80, 12) }}'}]},
     {"name": "template-reindent", "file": TEMPLATES["cvode"], "old": "    {% for eq in ode.fex -%}\n        {{ eq | stmwrap(80, 8) }}", "new": "    {% for eq in ode.fex -%}\n      {{ eq|stmwrap(80, 6) }}"},
 ]
